@@ -1228,6 +1228,8 @@ func (vx *Vaxis) sendQueries() {
 	// Explicit width query
 	_, _ = vx.tw.WriteString("\x1b[H")
 	_, _ = fmt.Fprintf(vx.tw, explicitWidth, 1, " ")
+	// the probe has to reach the terminal before we ask where the cursor is
+	_, _ = vx.tw.Flush()
 	_, col := vx.CursorPosition()
 	if col == 1 {
 		log.Debug("[capability] explicit width supported")
